@@ -324,7 +324,14 @@ def run_tasks(sc):
     leftover = [(td.kwargs["sender"], td.kwargs["seq"]) for td in sm._engine._external_queue]
     return {"begins": [list(x) for x in begins if x[0] < 10], "nested": [list(x) for x in begins if x[0] >= 10],
             "leftover": [list(x) for x in leftover], "returned": list(done), "overlap": overlap,
-            "fifo": [list(x) for x in begins] == [list(x) for x in puts], "nputs": len(puts)}
+            "fifo": [list(x) for x in begins] == [list(x) for x in puts], "nputs": len(puts),
+            "subseq": _is_subseq([tuple(x) for x in begins], [tuple(x) for x in puts]),
+            "flushed": any(x[0] == 8 for x in begins)}
+
+
+def _is_subseq(a, b):
+    it = iter(b)
+    return all(any(x == y for y in it) for x in a)
 
 
 def run_impl(sc):
@@ -346,9 +353,11 @@ def coq_case(sc, obs):
         # for Await granularity are checked directly on what happened
         n = len(sc["plan"])
         if sc.get("cancel_at") is not None:
-            # the draining task was cancelled inside a callback: the lock must have been released - the event
-            # sent afterwards and everything queued meanwhile get processed, in put order, nothing left over
-            ok = (not obs["overlap"] and not obs["leftover"] and all(obs["returned"]) and obs.get("fifo"))
+            # the draining task was cancelled inside a callback: that is a failing callback (C04) - the lock is
+            # released and what was waiting is dropped; the event sent afterwards is processed; whatever was
+            # processed was processed in put order; nothing is left over
+            ok = (not obs["overlap"] and not obs["leftover"] and all(obs["returned"]) and obs.get("subseq")
+                  and obs.get("flushed"))
             return "(mk6 false [] [] [] [] [])" if ok else "(mk6 false [] [] [((9, 9), 9)] [] [])"
         if sc.get("same_events"):
             ok = (not obs["overlap"] and not obs["leftover"] and all(obs["returned"]) and obs.get("fifo")
